@@ -192,6 +192,9 @@ pub struct World {
     /// behaviour features of the running history (novelty feedback of the evolve generator; never a verdict)
     pub feat_on: Cell<bool>,
     pub feats: RefCell<Vec<u64>>,
+    /// the running check reports C07: the "collector idle after the unwind" probes are judged at the unwind itself.
+    /// Other checks leave them to C07 and observe the consequences of a stuck flag through their own oracles instead.
+    pub judge_idle_after_unwind: Cell<bool>,
 }
 
 impl World {
@@ -255,6 +258,7 @@ impl World {
             fault_obj_mark: Cell::new(u32::MAX),
             coll_explicit: Cell::new(false),
             cleaning: RefCell::new(Vec::with_capacity(16)),
+            judge_idle_after_unwind: Cell::new(true),
             feat_on: Cell::new(false),
             feats: RefCell::new(Vec::with_capacity(FEAT_CAP)),
         }
